@@ -186,6 +186,51 @@ func Preempt(name string) {
 	}
 }
 
+// ---- named wait points (cmd/taskctl's cancel listeners) ----
+
+// PointHook is set by the simulator for the duration of a run.
+var PointHook atomic.Value // func(id string)
+
+var (
+	pointMu  sync.Mutex
+	pointOcc = map[string]int{}
+)
+
+// ResetPoints forgets the occurrence counters (start of a run).
+func ResetPoints() {
+	pointMu.Lock()
+	pointOcc = map[string]int{}
+	pointMu.Unlock()
+}
+
+// WaitPoint replaces `<-ch` in goroutines that wait for a signal and then act on it: the
+// goroutine gets its identity when it starts waiting (creation order, which is sequential), and
+// once the signal arrived it yields to the simulator before acting. Without a hook it is `<-ch`.
+func WaitPoint(ch <-chan struct{}, name string) {
+	pointMu.Lock()
+	pointOcc[name]++
+	id := name + "#" + itoa(pointOcc[name])
+	pointMu.Unlock()
+	<-ch
+	if f, _ := PointHook.Load().(func(string)); f != nil {
+		f(id)
+	}
+}
+
+func itoa(n int) string {
+	if n == 0 {
+		return "0"
+	}
+	var b [20]byte
+	i := len(b)
+	for n > 0 {
+		i--
+		b[i] = byte('0' + n%10)
+		n /= 10
+	}
+	return string(b[i:])
+}
+
 // GID returns the id of the calling goroutine (parsed from its stack header).
 func GID() int64 {
 	var buf [64]byte
